@@ -26,6 +26,7 @@ func generalOps() []string {
 		"wait", "cancelStream", "breakStream", "cancelSync",
 		"kill", "killQueue", "addDrain", "removeDrain", "terminate", "cancelTerminate",
 		"advance", "advance", "advanceSmall", "tick",
+		"parkSend", "releaseSend", "releaseSend", "waitParked", "killParked", "releaseAuth", "releaseAuth",
 	}
 }
 
@@ -69,6 +70,7 @@ func TestC02WaitersGetOneFaithfulResult(t *testing.T) {
 		"wait", "wait", "wait", "cancelStream", "cancelStream", "breakStream",
 		"kill", "kill", "cancelSync",
 		"advance", "advance", "advance", "advanceSmall", "tick",
+		"parkSend", "parkSend", "releaseSend", "releaseSend", "waitParked", "killParked", "releaseAuth", "releaseAuth",
 	}
 	p := &profile{
 		name: "C02", ops: ops, minSteps: 5, maxSteps: 60, instances: []string{""},
@@ -161,6 +163,7 @@ func TestC06TimeoutsWakeupsNoLeaks(t *testing.T) {
 		"cancelSync", "cancelSync", "cancelStream", "cancelStream", "breakStream", "wait",
 		"terminate", "cancelTerminate", "kill",
 		"advance", "advance", "advance", "advance", "advanceSmall", "tick",
+		"parkSend", "releaseSend", "waitParked", "killParked", "releaseAuth", "releaseAuth",
 	}
 	p := &profile{
 		name: "C06", ops: ops, minSteps: 5, maxSteps: 70, instances: []string{"", "a"},
